@@ -547,7 +547,7 @@ func connScenario(r *rand.Rand, thorough bool, single bool, stallAt int) {
 	})
 	kafka.VerifStart()
 	deadline := time.Duration(40+r.Intn(80)) * time.Millisecond
-	b.stallFor = deadline + 30*time.Millisecond
+	b.stallFor = deadline + 250*time.Millisecond // a wide margin: the rest of the body must not arrive before the caller has given up, even on a loaded machine
 	var wg sync.WaitGroup
 	results := make([]callRes, 0, total)
 	tagBase := 1000 + r.Intn(1000)*100
@@ -755,6 +755,7 @@ func main() {
 		n, _ = strconv.Atoi(os.Args[1])
 	}
 	bytesCases(r, thorough)
+	consumedCases(r, thorough)
 	out.Flush()
 	stressScenarios(r, thorough)
 	fetchScenarios(r, thorough)
